@@ -14,7 +14,7 @@ use std::collections::BTreeMap;
 use std::sync::atomic::{AtomicBool, AtomicUsize, Ordering as O};
 use std::sync::Mutex;
 
-pub const MAXT: usize = 6;
+pub const MAXT: usize = 8;
 pub type VC = [u32; MAXT];
 const NONE: usize = usize::MAX;
 pub const MAIN: usize = usize::MAX - 1;
